@@ -240,6 +240,10 @@ def run(tier, work):
         verdict.add(sig, [json.dumps(allh[idx2[bi]])] + [json.dumps(p) for p in projs3[bi][:upto + 1]],
                     "first unexplainable event #%d: %s" % (upto + 1, json.dumps(bad)))
     print("TLC P3 CallOutTrace (same traces): %d executions / %d events accepted" % (acc3, nev3))
+    # the other objects: the periodic reset / clean_up scan with failing, self-destructing and object-destructing hooks
+    # (spec/lifecycle) - nobody who was due is left out of a scan because another object's hook failed
+    import x_lifecycle
+    nlife = x_lifecycle.run(tier, work, verdict=verdict)
     faults = {"err1", "err2", "hberr", "coerr", "copair", "copair2", "pi_err1", "inputto_err1", "netdead_err", "logon_err", "connect_err",
               "ttype_err1", "reset_err", "cleanup_err", "console_err"}
     nontrivial = len({json.dumps(h, sort_keys=True) for h in allh if any(s["a"] in faults for s in h[1:])})
